@@ -87,8 +87,14 @@ def work(job):
             res["viol"].append({"kind": "safeCheck-fails", "storage": sname, "args": c.args, "detail": wf,
                                 "report": "the decidable hypothesis of C03_no_memory_fault does not hold of the exported machine"})
         res["states"] = c.nstates
-        for _ in range(6 if tier == "quick" else 20):
-            data = inputs.random_walk(c.dfa, rng, rng.randint(1, 40), p_follow=0.92)
+        biggest = max([o.str_size for o in c.outs if getattr(o, "str_size", None)] or [0])
+        nwalks = 6 if tier == "quick" else 20
+        for wi in range(nwalks + 2):
+            if wi < nwalks:
+                data = inputs.random_walk(c.dfa, rng, rng.randint(1, 40), p_follow=0.92)
+            else:
+                # long walks that follow the machine closely: reach and pass the capacities
+                data = inputs.random_walk(c.dfa, rng, min(biggest, 300) + rng.randint(2, 12), p_follow=0.985)
             chunks = inputs.chunkings(data, rng, 1)[-1] if len(data) > 1 else [len(data)]
             ops = rtdiff.feed_ops(c, data, chunks, free=True)
             if not c.indirect():
